@@ -20,7 +20,7 @@ package knx
 
 //@ func (conn *Tunnel) handleTunnelReq(req *knxnet.TunnelReq, seq *uint8) (err error)
 //@   props C04
-//@   ghost nsent lastsent nspawn spawnarg nsend lastsend sendsame
+//@   ghost nsent lastsent nspawn spawnarg nsend lastsend sendsame sendclock
 //@   requires req != nil && seq != nil && conn.sock != nil && !closed(conn.inbound)
 //@   requires sep(seq, conn) && sep(seq, req)
 //@   let mine = req.Channel == conn.channel
@@ -180,10 +180,10 @@ package knx
 //@   props C09
 //@   ghost
 //@   noterm
-//@   requires conn.sock != nil && conn.config.ResendInterval > 0 && conn.config.HeartbeatInterval > 0 && !closed(conn.inbound) && !closed(conn.ack) && !held(conn.seqMu)
+//@   requires conn.sock != nil && conn.config.ResendInterval > 0 && conn.config.HeartbeatInterval > 0 && !closed(conn.inbound) && !closed(conn.ack) && !held(conn.seqMu) && base(conn.ack) != base(conn.inbound)
 //@   ensures [shutdown] closed(conn.ack) && closed(conn.inbound) && nclose(conn.ack) == old(nclose(conn.ack)) + 1 && nclose(conn.inbound) == old(nclose(conn.inbound)) + 1 && gcount("wg:Done") == old(gcount("wg:Done")) + 1
 //@   assigns conn.control, conn.channel, conn.seqNumber
-//@   loop 0 invariant !closed(conn.inbound) && !closed(conn.ack) && !held(conn.seqMu) && nclose(conn.ack) == old(nclose(conn.ack)) && nclose(conn.inbound) == old(nclose(conn.inbound)) && gcount("wg:Done") == old(gcount("wg:Done"))
+//@   loop 0 invariant conn.sock == old(conn.sock) && conn.config == old(conn.config) && conn.inbound == old(conn.inbound) && conn.ack == old(conn.ack) && !closed(conn.inbound) && !closed(conn.ack) && !held(conn.seqMu) && nclose(conn.ack) == old(nclose(conn.ack)) && nclose(conn.inbound) == old(nclose(conn.inbound)) && gcount("wg:Done") == old(gcount("wg:Done"))
 //@   loop 0 assigns conn.control, conn.channel, conn.seqNumber
 //@   loop 0 ghost nsend lastsend sendsame sendclock nrecv lastrecv nticker ntickerstop nafter period lastticker.d lastafter.d nsent lastsent nspawn spawnarg held unlockclock
 
